@@ -593,7 +593,122 @@ def _splice_tuple_temps(tree: ast.AST) -> int:
     return n
 
 
+class _LowerMatch(ast.NodeTransformer):
+    """`match` statements are read as the if / elif chain they abbreviate, for the pattern kinds the chain can express exactly:
+    literal and dotted-name value patterns, `None` / `True` / `False`, class patterns without sub-patterns (`str()`, `np.ndarray()`)
+    or with positional sub-patterns on a builtin sequence type (`tuple((a, b))`), fixed-length sequence patterns of captures /
+    wildcards / the above, or-patterns, `as` bindings, capture patterns, guards and `_`.  Anything else (mapping patterns, star
+    patterns, keyword sub-patterns) is left alone - the readers then say `Match is outside the model`."""
+
+    def __init__(self):
+        self.n = 0
+
+    def _test(self, pat, subj):
+        """(test expr or None for 'always', [bindings (name, expr)]) or raises ValueError for an unsupported pattern"""
+        if isinstance(pat, ast.MatchValue):
+            return ast.Compare(left=subj, ops=[ast.Eq()], comparators=[pat.value]), []
+        if isinstance(pat, ast.MatchSingleton):
+            return ast.Compare(left=subj, ops=[ast.Is()], comparators=[ast.Constant(pat.value)]), []
+        if isinstance(pat, ast.MatchAs):
+            if pat.pattern is None:
+                return None, ([(pat.name, subj)] if pat.name else [])
+            t, b = self._test(pat.pattern, subj)
+            return t, b + ([(pat.name, subj)] if pat.name else [])
+        if isinstance(pat, ast.MatchOr):
+            tests = []
+            for p_ in pat.patterns:
+                t, b = self._test(p_, subj)
+                if b:
+                    raise ValueError("bindings in an or-pattern")
+                if t is None:
+                    return None, []
+                tests.append(t)
+            return ast.BoolOp(op=ast.Or(), values=tests), []
+        if isinstance(pat, ast.MatchClass):
+            if pat.kwd_attrs or pat.kwd_patterns:
+                raise ValueError("keyword sub-patterns")
+            isinst = ast.Call(func=ast.Name(id="isinstance", ctx=ast.Load()), args=[subj, pat.cls], keywords=[])
+            if not pat.patterns:
+                return isinst, []
+            if len(pat.patterns) == 1 and isinstance(pat.cls, ast.Name) and pat.cls.id in ("tuple", "list", "str", "int", "float", "bool", "bytes", "dict", "set", "frozenset"):
+                t, b = self._test(pat.patterns[0], subj)      # builtins match the whole subject against their one positional sub-pattern
+                return (isinst if t is None else ast.BoolOp(op=ast.And(), values=[isinst, t])), b
+            raise ValueError("positional sub-patterns of a user class")
+        if isinstance(pat, ast.MatchSequence):
+            if any(isinstance(p_, ast.MatchStar) for p_ in pat.patterns):
+                raise ValueError("star pattern")
+            seq = ast.Call(func=ast.Name(id="isinstance", ctx=ast.Load()), args=[subj, ast.Tuple(elts=[ast.Name(id="tuple", ctx=ast.Load()), ast.Name(id="list", ctx=ast.Load())], ctx=ast.Load())], keywords=[])
+            ln = ast.Compare(left=ast.Call(func=ast.Name(id="len", ctx=ast.Load()), args=[subj], keywords=[]), ops=[ast.Eq()], comparators=[ast.Constant(len(pat.patterns))])
+            tests, binds = [seq, ln], []
+            for i, p_ in enumerate(pat.patterns):
+                el = ast.Subscript(value=subj, slice=ast.Constant(i), ctx=ast.Load())
+                t, b = self._test(p_, el)
+                if t is not None:
+                    tests.append(t)
+                binds += b
+            return ast.BoolOp(op=ast.And(), values=tests), binds
+        raise ValueError(type(pat).__name__)
+
+    def visit_Match(self, node: ast.Match):
+        self.generic_visit(node)
+        import copy
+        pre = []
+        subj = node.subject
+        if isinstance(subj, ast.Tuple) and all(isinstance(e, (ast.Name, ast.Attribute, ast.Constant)) for e in subj.elts):
+            pass        # `match a, b:` - the elements are re-read, which is harmless for names and attributes
+        elif not isinstance(subj, (ast.Name, ast.Attribute)):
+            self.n += 1
+            tmp = f"_match_subject_{self.n}"
+            pre.append(ast.Assign(targets=[ast.Name(id=tmp, ctx=ast.Store())], value=subj))
+            subj = ast.Name(id=tmp, ctx=ast.Load())
+        try:
+            arms = []
+            for case in node.cases:
+                pat = case.pattern
+                if isinstance(subj, ast.Tuple) and isinstance(pat, ast.MatchSequence) and len(pat.patterns) == len(subj.elts) \
+                        and not any(isinstance(p_, ast.MatchStar) for p_ in pat.patterns):
+                    tests, binds = [], []
+                    for el, p_ in zip(subj.elts, pat.patterns):
+                        t, b = self._test(p_, copy.deepcopy(el))
+                        if t is not None:
+                            tests.append(t)
+                        binds += b
+                    test = None if not tests else tests[0] if len(tests) == 1 else ast.BoolOp(op=ast.And(), values=tests)
+                else:
+                    test, binds = self._test(pat, copy.deepcopy(subj))
+                body = [ast.Assign(targets=[ast.Name(id=n_, ctx=ast.Store())], value=copy.deepcopy(v_)) for n_, v_ in binds] + list(case.body)
+                if case.guard is not None:
+                    if binds:
+                        # the guard may use the bindings: substitute them
+                        class _Sub(ast.NodeTransformer):
+                            def visit_Name(self_, n_):
+                                for bn, bv in binds:
+                                    if n_.id == bn and isinstance(n_.ctx, ast.Load):
+                                        return copy.deepcopy(bv)
+                                return n_
+                        g = _Sub().visit(copy.deepcopy(case.guard))
+                    else:
+                        g = case.guard
+                    test = g if test is None else ast.BoolOp(op=ast.And(), values=[test, g])
+                arms.append((test, body))
+        except ValueError:
+            return node
+        # build the chain from the last arm backwards
+        chain = None
+        for test, body in reversed(arms):
+            if test is None:
+                chain = list(body)
+            else:
+                chain = [ast.If(test=test, body=list(body), orelse=chain or [])]
+        out = pre + (chain or [ast.Pass()])
+        for st in out:
+            ast.copy_location(st, node)
+        return [ast.fix_missing_locations(st) for st in out]
+
+
 def canon_compare(tree: ast.AST, modname: str = "") -> ast.AST:
+    tree = _LowerMatch().visit(tree)
+    ast.fix_missing_locations(tree)
     tree = _CanonCompare().visit(tree)
     _inline_return_temps(tree)
     if isinstance(tree, ast.Module):
